@@ -517,7 +517,7 @@ pub mod verif {
         };
         let mut sq = super::Squeeze {
             num_sq: 0,
-            sp: Vec::new(),
+            sp: Vec::with_capacity(16),
         };
         sq.set_default_params(&channels);
         let mut n = 0;
